@@ -59,7 +59,19 @@ ClosePrefix(p) == IF p = <<>> THEN <<>> ELSE IF p[1] = 91 THEN <<93>> ELSE <<125
 DeepTexts(lim) == UNION {{p \o RepSeq(<<91>>, d) \o leaf \o RepSeq(<<93>>, d) \o ClosePrefix(p),
                      p \o RepSeq(<<123, 34, 97, 34, 58>>, d) \o <<49>> \o RepSeq(<<125>>, d) \o ClosePrefix(p)}
                       : p \in DeepPrefixes, d \in 1..(lim + 2), leaf \in {<<>>, <<49>>}}
-Starts == CASE U = "deep" -> DeepTexts(NestingLimit) [] U = "str" -> {<<34>>, <<123, 34>>} [] U = "long" -> LongStarts [] U = "big" -> BigParseTexts [] U = "bigq" -> BigParseTextsQ [] U = "allbytes" -> AllByteTexts [] OTHER -> {<<>>}
+\* "esctab": the byte after a backslash and every digit position of a \u escape (alone, first and second half of a surrogate pair) take every
+\* byte value 0..255, as a string value, an array element and a member name: the escape switch and the hex decoder as complete tables
+HexOne == <<48, 48, 52, 49>>   HexHigh == <<100, 56, 51, 100>>   HexLow == <<100, 101, 48, 48>>        \* 0041, d83d, de00
+EscBodies == {<<92, c>> : c \in 0..255}
+             \cup {<<92, 117>> \o [HexOne EXCEPT ![k] = c] : k \in 1..4, c \in 0..255}
+             \cup {<<92, 117>> \o [HexHigh EXCEPT ![k] = c] \o <<92, 117>> \o HexLow : k \in 1..4, c \in 0..255}
+             \cup {<<92, 117>> \o HexHigh \o <<92, 117>> \o [HexLow EXCEPT ![k] = c] : k \in 1..4, c \in 0..255}
+             \* a first half followed by six bytes that are not a \u escape / by another first half / a second half alone
+             \cup {<<92, 117>> \o HexHigh \o t : t \in {<<97, 98, 99, 100, 101, 102>>, <<92, 110, 100, 101, 48, 48>>, <<92, 85, 100, 101, 48, 48>>, <<117, 92, 100, 101, 48, 48>>,
+                                                     <<92, 117>> \o HexHigh, <<92, 92, 117>> \o HexLow, <<92, 117, 100, 101, 48>>}}
+             \cup {<<92, 117>> \o HexLow \o <<92, 117>> \o HexHigh, <<92, 117>> \o HexLow, <<92, 117>> \o HexHigh}
+EscTabTexts == UNION {{<<34>> \o b \o <<34>>, <<91, 34, 120>> \o b \o <<34, 93>>, <<123, 34>> \o b \o <<121, 34, 58, 49, 125>>} : b \in EscBodies}
+Starts == CASE U = "esctab" -> EscTabTexts [] U = "deep" -> DeepTexts(NestingLimit) [] U = "str" -> {<<34>>, <<123, 34>>} [] U = "long" -> LongStarts [] U = "big" -> BigParseTexts [] U = "bigq" -> BigParseTextsQ [] U = "allbytes" -> AllByteTexts [] OTHER -> {<<>>}
 
 \* ---- L1 classification ---------------------------------------------------------------------------------
 Front(b) == SubSeq(b, 1, Len(b) - 1)
